@@ -106,4 +106,27 @@ CHECKS["C02"] = dict(
     thorough=dict(workers=16, cases=4000, maxsize=120),
 )
 
+CHECKS["C03"] = dict(
+    harness="datapath", sources=DP_SOURCES, variant="asan", env={"VF_PROP": "C03"},
+    level="exploration", engine="rapidcheck + lower-layer shim (EAGAIN / EINTR injection) + ASan/UBSan",
+    technique="model-based property testing with fault injection: refusals below XCM and EINTR "
+              "injected into the blocking waits of xcm_send; ledger + counter no-trace oracle",
+    level_text="Generated histories on all transports with sends of size 0, 1..max, max+1 and far "
+               "larger, issued while frames are pending, refused by injected or real EAGAIN, and "
+               "(blocking endpoints) interrupted by EINTR at the n-th internal wait; every failed "
+               "send must leave counters untouched and never be delivered, re-sending must not "
+               "duplicate, every accepted send must be delivered exactly once. Sampled.",
+    level_note="EINTR is injected at the poll() boundary by the shim (what a signal handler "
+               "without SA_RESTART produces); real signal delivery is not used.",
+    rule=("plans as C01/C02 plus invalid sizes {0,65536,65537,1 MiB,32 MiB}, one endpoint possibly "
+          "in blocking mode (its calls run in a worker thread while the peer is pumped), EINTR at "
+          "the 1st..3rd blocking poll of a send, and an application re-send after a failed "
+          "blocking send. Non-trivial = a send was refused while a frame was pending, or refused "
+          "under split/injected I/O, or an injected EINTR actually interrupted a blocking send."),
+    assumptions=["at most one endpoint of a pair is blocking at a time (each socket is independent "
+                 "inside the library)"],
+    quick=dict(workers=16, cases=200, maxsize=60),
+    thorough=dict(workers=16, cases=4000, maxsize=120),
+)
+
 NOT_APPLICABLE = []
